@@ -607,8 +607,53 @@ fn validator_ops(a: &[&str]) -> String {
     }
 }
 
+/// vault_lock <op lock|unlock> <amount> <liquid balance> <n locked entries> {<amount> <count>}*
+/// the REAL FungibleVaultBlueprint::{lock_amount, unlock_amount} over the MockApi field store;
+/// prints `ok|err <liquid after> <n> {<amount> <count>}*` (locked entries sorted by amount)
+fn vault_lock(a: &[&str]) -> String {
+    use radix_common::prelude::*;
+    use radix_engine::blueprints::resource::*;
+    use radix_engine_interface::blueprints::resource::{LiquidFungibleResource, LockedFungibleResource};
+    let mut api = mock_api::MockApi::default();
+    let n: usize = a[3].parse().unwrap();
+    let mut amounts: IndexMap<Decimal, usize> = IndexMap::default();
+    for i in 0..n {
+        amounts.insert(dec(a[4 + 2 * i]), a[5 + 2 * i].parse().unwrap());
+    }
+    api.fields.insert(
+        FungibleVaultField::Balance.field_index(),
+        scrypto_encode(&FungibleVaultBalanceFieldPayload::from_latest_version(LiquidFungibleResource::new(dec(a[2])))).unwrap(),
+    );
+    api.fields.insert(
+        FungibleVaultField::LockedBalance.field_index(),
+        scrypto_encode(&FungibleVaultLockedBalanceFieldPayload::from_latest_version(LockedFungibleResource { amounts })).unwrap(),
+    );
+    let r = if a[0] == "lock" {
+        FungibleVaultBlueprint::lock_amount(dec(a[1]), &mut api)
+    } else {
+        FungibleVaultBlueprint::unlock_amount(dec(a[1]), &mut api)
+    };
+    let bal: FungibleVaultBalanceFieldPayload = scrypto_decode(&api.fields[&FungibleVaultField::Balance.field_index()]).unwrap();
+    let lk: FungibleVaultLockedBalanceFieldPayload =
+        scrypto_decode(&api.fields[&FungibleVaultField::LockedBalance.field_index()]).unwrap();
+    let lk = lk.fully_update_and_into_latest_version();
+    let mut es: Vec<(I192, usize)> = lk.amounts.iter().map(|(k, v)| (k.attos(), *v)).collect();
+    es.sort();
+    let mut out = format!(
+        "{} {} {}",
+        if r.is_ok() { "ok" } else { "err" },
+        bal.fully_update_and_into_latest_version().amount().attos(),
+        es.len()
+    );
+    for (k, v) in es {
+        out += &format!(" {} {}", k, v);
+    }
+    out
+}
+
 fn run(a: &[&str]) -> String {
     match a[0] {
+        "vault_lock" => vault_lock(&a[1..]),
         "redeem_value" | "stake_roundtrip" => validator_ops(a),
         "cm_time" => cm_time(&a[1..]),
         "ac_run" => ac_run(&a[1..]),
